@@ -358,6 +358,21 @@ func runGraphs() {
 		}
 		grtCase(ts, "random")
 	}
+	// every delimiter / escape look-alike sequence inside the ids and values of one small graph each
+	// (the line protocol of WriteGraph / ReadIntoGraph must neither need nor invent an escaping)
+	anchor := time.Date(2016, 12, 31, 23, 59, 59, 100000000, time.FixedZone("", 19800))
+	for _, d := range delimSeqs {
+		for _, w := range []string{d, "a" + d + "b", d + d} {
+			sn, pn := nodeSpec("/t", "s"), immSpec("p")
+			grtCase([]*VSpec{
+				tripleSpec(sn, pn, textSpec(w)),
+				tripleSpec(nodeSpec("/t", w), pn, nodeSpec("/t/"+w, "i")),
+				tripleSpec(sn, immSpec(w), blobSpec([]byte(w))),
+				tripleSpec(sn, tmpSpec(w, anchor), tmpSpec("o"+w, anchor)),
+				tripleSpec(sn, immSpec("q"), textSpec("plain")),
+			}, "delim-graph")
+		}
+	}
 	// targeted: text with a line break; a line longer than the default scanner buffer (text and blob
 	// values may be arbitrarily long); int64 at the ends of the range; both orders of magnitude
 	s, p := nodeSpec("/t", "s"), immSpec("p")
